@@ -68,6 +68,8 @@ def special_shapes():
     out.append(("zone-trailing-ws", Doc([A("STATUS", zws), B("B1", [A("TESTS", zws), A("K", v)]), A("OTHER", zws)], meta=META, separator=True)))
     out.append(("long-floats", Doc([A("STATUS", dm.F(51.4778926)), B("B1", [A("TESTS", dm.F(1234567.89)), A("K", Lst(dm.F(0.30000000000000004), I(12345678901)))]), A("OTHER", dm.F(-0.0014702123))],
                                    meta=META + [("RATIO", dm.F(2.718281828459045))], separator=True)))
+    zesc = dm.Zone("\x1b[31mred\x1b[0m \x07", "ansi", "```")
+    out.append(("zone-esc", Doc([A("STATUS", zesc), B("B1", [A("TESTS", zesc), A("K", S("a\x1b[1mb", "quoted"))]), A("OTHER", v)], meta=META, separator=True)))
     out.append(("zone-nfd", Doc([A("STATUS", znfd), B("B1", [A("TESTS", znfd), A("K", v)]), A("OTHER", znfd)], meta=META, separator=True)))
     return out
 
